@@ -1,6 +1,7 @@
 package olvm
 
 import (
+	"bytes"
 	"encoding/json"
 	"fmt"
 	"math/big"
@@ -230,6 +231,18 @@ func (otx olvmTx) Validate(ctx *action.Context, signedTx action.SignedTx) (bool,
 		return false, err
 	}
 
+	// the Ethereum signature covers the transaction fields only, not their envelope. The envelope has to be
+	// the one encoding that follows from those fields (canonical payload, signer key of the sender), else
+	// anybody could re-encode a signed transaction into different bytes with a different hash
+	canonical, err := tx.Marshal()
+	if err != nil || !bytes.Equal(canonical, signedTx.Data) {
+		return false, errors.New("payload is not in canonical encoding")
+	}
+	signerKey, err := signedTx.Signatures[0].Signer.GetHandler()
+	if err != nil || !tx.From.Equal(signerKey.Address()) {
+		return false, errors.New("signer key does not belong to the sender")
+	}
+
 	err = action.ValidateFee(ctx.FeePool.GetOpt(), signedTx.Fee)
 	if err != nil {
 		return false, err
@@ -254,13 +267,8 @@ func (otx olvmTx) Validate(ctx *action.Context, signedTx action.SignedTx) (bool,
 		return false, err
 	}
 
-	memoNonce, err := strconv.ParseUint(signedTx.Memo, 10, 0)
-	if err != nil {
-		return false, err
-	}
-
-	// double spend protection
-	if memoNonce != tx.Nonce {
+	// double spend protection: the memo is the nonce in its one decimal form
+	if signedTx.Memo != strconv.FormatUint(tx.Nonce, 10) {
 		return false, errors.New("wrong memo for nonce")
 	}
 
